@@ -228,6 +228,41 @@ pub fn run_case(case: &Value, out: &mut Obs) {
         svc!("DeleteMonitoredItems", |h| DeleteMonitoredItemsRequest { request_header: h, subscription_id: sub, monitored_item_ids: Some(vec![item]) });
         svc!("DeleteSubscriptions", |h| DeleteSubscriptionsRequest { request_header: h, subscription_ids: Some(vec![sub]) });
     }
+    // Variants: further requests of the universe of Services.tla (other parameter classes: error paths, other branches) on
+    // connection 1, each against fresh live objects where it needs them. The program of a variant is named after its
+    // service (Call: and its method) so that the variants of one service share one signature.
+    if let Some(vs) = case.get("variants").and_then(|v| v.as_array()) {
+        use crate::e_services::{build_req, live_objects, make_nodes, undo_type_changes, Names};
+        let c = &mut conns[0];
+        let mut names = Names { sub: 0, item: 0, item2: 0, cp: ByteString::null(), tag: 4242, seq_seen: 0 };
+        {
+            let a = srv.server.address_space();
+            let mut a = a.write();
+            make_nodes(&mut a, &names);
+        }
+        for (k, r) in vs.iter().enumerate() {
+            // the objects a request may name are (re)made outside the traced region
+            names.sub = 0;
+            live_objects(&mut names, &mut |mkreq| {
+                let h = c.header();
+                c.call(mkreq(h)).into_iter().next().map(|(_, m)| m).unwrap_or_else(|| ServiceFault::new(&RequestHeader::dummy(), StatusCode::BadUnexpectedError).into())
+            });
+            let h = c.header();
+            let req = build_req(h, &names, r);
+            let svc = gets(r, "svc");
+            let name = if svc == "Call" { format!("Call_{}~{}", gets(r, "method"), k + 1) } else { format!("{}~{}", svc, k + 1) };
+            task(out, &cid, &mut i, &name, 1, || {
+                let _ = c.call(req);
+            });
+            // tidy up (untraced): what the request left in the session or the type hierarchy
+            let subs: Vec<u32> = vec![names.sub];
+            let h = c.header();
+            let _ = c.call(DeleteSubscriptionsRequest { request_header: h, subscription_ids: Some(subs) }.into());
+            let a = srv.server.address_space();
+            let mut a = a.write();
+            undo_type_changes(&mut a);
+        }
+    }
     // closing a session and tearing a connection down come last (they free objects)
     {
         let c = &mut conns[0];
